@@ -114,6 +114,8 @@ pub fn blank(payments: Vec<PaymentSpec>, htlcs: Vec<HtlcSpec>, seed: u64) -> Sce
         initial_succeeded: vec![],
         cfg_later: None,
         notif_stall: false,
+        pay_opts: None,
+        fail_store: None,
     }
 }
 
